@@ -346,8 +346,9 @@ def run(check, tier):
         check.section(title, st, acc, bounds, tags_required=req)
         cands.extend(acc.candidates)
     check.confirm(cands, make_replay, classify)
-    from . import C03b
+    from . import C03b, C03c
     C03b.run(check, tier)
+    C03c.run(check, tier)
     driver.close_pool()
     if tier == "thorough":
         from . import xh_run
